@@ -13,6 +13,7 @@ from harness import build, gen
 from harness import refmodel as rm
 
 RULE = (
+    "A quarter of the pairwise cases use hand-rotated orthonormal Hermitian bases (identity kept / all elements mixed / identity rotated with one element; both basis classes; measurement processes identity-first only) - harness/covar.py. "
     "Operands are physical by construction (spectral / Naimark / Stinespring recipes from Hypothesis-drawn Ginibre arrays: "
     "complex, non-commuting, rank-1 to full rank), shapes 1q / qutrit / 2q, measurement factors with different outcome "
     "counts (2..4, multi-dimensional instrument shapes included).  pairwise: every supported ordered type pair of "
@@ -395,7 +396,7 @@ def compare(ctx, res, exp, basis, d, oid, tol_scale=1.0, shape_mode="equal"):
             else:
                 p = float(joint[i])
                 dv = float(exp["div"][i])
-                ok = ctx.close(math.sqrt(d) * v[0], 1.0, alg, oid + ":post_state_trace", f"outcome {i}") and ok
+                ok = ctx.close(float(np.real(np.trace(rm.unvec(basis, v)))), 1.0, alg, oid + ":post_state_trace", f"outcome {i}") and ok
                 ok = ctx.close(v, np.real(rm.vec(basis, sig / p)), alg / min(1.0, dv), oid + ":post_state",
                                f"outcome {i} p={p:.3e}") and ok
         return ok
@@ -581,6 +582,13 @@ def pair_case(draw, tier, pairs=PAIRS, force_ipr=None):
             "call": draw(st.sampled_from(["args", "list", "mixed"]))}
     if pair == "mprocess_state" and thr == "none" and draw(st.integers(0, 5)) == 0:
         case["sampling_seed"] = draw(st.integers(0, 2 ** 31 - 1))
+    if draw(st.integers(0, 3)) == 0:
+        # the same operators over a hand-rotated (orthonormal, Hermitian, identity-first) basis: harness/covar.py
+        case["rot"] = draw(gen.raw(64))
+        if "mprocess" not in pair:
+            # measurement processes require an identity-first basis (documented rejection); the other types accept any
+            # orthonormal Hermitian basis, including one whose first element is not proportional to the identity
+            case["rot_mode"] = draw(st.sampled_from(["keep_first", "full", "givens0"]))
     return case
 
 
@@ -629,6 +637,11 @@ def check_pairwise(case, ctx):
     d = _d(shape)
     basis = gen.ref_basis(shape)
     c_sys = _c_sys(shape)
+    if case.get("rot") is not None:
+        from harness import covar
+
+        c_sys, _o, basis = covar.rotated_env(shape, case["rot"], mode=case.get("rot_mode", "keep_first"))
+        ctx.label("basis:rotated:" + case.get("rot_mode", "keep_first"))
     a, b = model(case["a"]), model(case["b"])
     exp = m_compose(a, b)
     ipr = _effective_ipr(case, exp)
